@@ -315,6 +315,18 @@ m("M14h_colorspace_no_depth_test", ["C14"], [("pdf/src/object/color.rs", "      
 m("M14i_page_depth_const", ["C14"], [("pdf/src/object/types.rs", "return tree.page_limited(resolve, page_nr - pos, depth - 1);", "return tree.page_limited(resolve, page_nr - pos, 16);")], expect="C14-REC", note="budget reset on every level")
 m("M14j_objstm_first_unchecked", ["C14"], [("pdf/src/object/stream.rs", "let start = first.checked_add(self.offsets[index]).ok_or(PdfError::Invalid)?;", "let start = first + self.offsets[index];")], expect="C14-TAINT")
 
+# ------------------------------------------------------------------ C19
+m("M19a_hex2", ["C19"], [("pdf/src/font.rs", "write!(w, \"<{:04X}>\", cid).unwrap();", "write!(w, \"<{:02X}>\", cid).unwrap();")], expect="C19-SIB", note="codes below 256 are written with one byte and read as a different code length")
+m("M19b_keyword", ["C19"], [("pdf/src/font.rs", "writeln!(buf, \"beginbfrange\").unwrap();", "writeln!(buf, \"beginbfranges\").unwrap();")], expect="C19-SIB")
+m("M19c_simple_default", ["C19"], [("pdf/src/font.rs", "                    TFont { first_char: Some(first), ref widths, .. } => Ok(Some(Widths {\n                        default: 0.0,", "                    TFont { first_char: Some(first), ref widths, .. } => Ok(Some(Widths {\n                        default: 1000.0,")], expect="C19-PROV")
+m("M19d_cid_default", ["C19"], [("pdf/src/font.rs", "let mut widths = Widths::new(cid.default_width);", "let mut widths = Widths::new(0.0);")], expect="C19-PROV", note="/DW ignored")
+m("M19e_array_no_offset", ["C19"], [("pdf/src/font.rs", "                            for (i, w) in array.iter().enumerate() {\n                                widths.set(c1 + i, w.as_number()?);\n                            }\n                        },", "                            for (_i, w) in array.iter().enumerate() {\n                                widths.set(c1, w.as_number()?);\n                            }\n                        },")], expect="C19-PROV")
+m("M19f_get_below", ["C19"], [("pdf/src/font.rs", "        if cid < self.first_char {\n            self.default\n        } else {", "        if cid < self.first_char {\n            0.0\n        } else {")], expect="C19-GET")
+m("M19g_prepend_no_store", ["C19"], [("pdf/src/font.rs", "            self.first_char = cid;\n            self.values[0] = width;\n            return;", "            self.first_char = cid;\n            return;")], expect="C19-SET", note="a group below the current first code loses its own width")
+m("M19h_string_form_no_step", ["C19"], [("pdf/src/font.rs", "                            if *last < 255 {\n                                *last += 1;\n                            } else {\n                                break;\n                            }", "                            if *last == 255 {\n                                break;\n                            }")], expect="C19-READ", note="every code of a string-form range maps to the first text")
+m("M19i_range_exclusive", ["C19"], [("pdf/src/font.rs", "for c in c1 ..= (c2 as usize) {", "for c in c1 .. (c2 as usize) {")], expect="C19-PROV", note="`c1 c2 w` does not set c2")
+m("M19j_pad_zero", ["C19"], [("pdf/src/font.rs", "self.values.extend(repeat(self.default).take(cid - self.first_char - self.values.len()));", "self.values.extend(repeat(0.0).take(cid - self.first_char - self.values.len()));")], expect="C19-SET", note="gaps read as 0 instead of /DW")
+
 
 def gen_patch(mu):
     files = {}
